@@ -124,8 +124,18 @@ GRID = [-math.inf, -2.0, -0.5, 0.0, 0.125, 0.5, 1.0, 2.5, 8.0, math.inf]
 
 
 # ================================================================================================ scripted rigs
-def _quiet():
-    logging.getLogger("nessai").setLevel(logging.CRITICAL)
+def _quiet(debug=False):
+    """nessai's logger silenced — or, for the runs that ask for it, at DEBUG with the records thrown away: what a run does must
+    not depend on the log level (seeded change C15-hA: a debug message consumed the generator of criterion checks)"""
+    lg = logging.getLogger("nessai")
+    if debug:
+        if not any(isinstance(h, logging.NullHandler) for h in lg.handlers):
+            lg.addHandler(logging.NullHandler())
+        lg.propagate = False
+        logging.disable(logging.NOTSET)
+        lg.setLevel(logging.DEBUG)
+    else:
+        lg.setLevel(logging.CRITICAL)
 
 
 def _mini_model():
@@ -930,12 +940,12 @@ def run_ins_real(ctx, cfg, tmp):
     import torch
     from .c03 import FakeFlows, make_model
     from nessai.samplers.importancesampler import ImportanceNestedSampler, OrderedSamples
-    _quiet()
+    _quiet(debug=cfg.get("debug_log", False))
     out = tempfile.mkdtemp(dir=tmp)
     seed, dims = cfg["seed"], 2
     np.random.seed(seed)
     torch.manual_seed(seed)
-    model = make_model(dims, seed, loffset=cfg.get("offset", 0.0))
+    model = make_model(dims, seed, lcut=cfg.get("lcut", False), loffset=cfg.get("offset", 0.0))
     snaps, pre_fin = [], {}
     orig_compute, orig_osfin = ImportanceNestedSampler.compute_stopping_criterion, OrderedSamples.finalise
 
@@ -1147,6 +1157,13 @@ def ins_run_cfgs(ctx, n):
         # the final checkpoint must still return the finished run (seeded change C15-eB)
         dict(criterion="log_dZ", tol=0.1, check="any", min=None, cap=6, checkpointing=False),
         dict(criterion="Z_err", tol=1.05, check="any", min=None, cap=6, offset=-1000.0),
+        # the same rules with the logger at DEBUG (records discarded)
+        dict(criterion=["log_dZ", "ess"], tol=[0.05, 150.0], check="any", min=None, cap=7, debug_log=True),
+        dict(criterion=["ratio_all", "ess"], tol=[2.0, 100.0], check="all", min=None, cap=7, debug_log=True),
+        # a likelihood that is exactly zero on part of the prior: the evidence-change / evidence-error criteria are still their
+        # definitions over ALL the samples (seeded change C15-hB normalised by the number of non-zero weights)
+        dict(criterion="log_dZ", tol=0.01, check="any", min=None, cap=7, lcut=True),
+        dict(criterion=["Z_err", "ess"], tol=[1.05, 400.0], check="any", min=None, cap=7, lcut=True),
         dict(criterion=["fractional_error", "ess"], tol=[0.05, 300.0], check="any", min=None, cap=6, offset=900.0),
     ]
     out = []
